@@ -192,6 +192,19 @@ func Drivers(nthreads int) []Driver {
 				*out = append(*out, obsMap(m, d))
 			}}
 		}},
+		{"12 i18n installed; every thread names a language that is not installed (first use of that name)", nthreads, func() *Shared {
+			old := conf.IssueFormatter
+			i18n.SetLanguagesErrsMap(map[string]zconst.LangMap{"en": en.Map, "es": es.Map}, "es")
+			s := z.Struct(z.Schema{"name": z.String().Min(5).Required(), "age": z.Int().GT(18)})
+			return &Shared{Cleanup: func() { conf.IssueFormatter = old }, Thread: func(i int, out *[]string, yield func()) {
+				var d user
+				m := s.Parse(map[string]any{"name": "ab", "age": 3}, &d, z.WithCtxValue("lang", []string{"fr", "de", "pt-BR"}[i%3]))
+				*out = append(*out, obsMap(m, d))
+				var n string
+				l := z.String().Min(5).Parse("abc", &n, z.WithCtxValue("lang", "it"))
+				*out = append(*out, obsList(l, n))
+			}}
+		}},
 		{"9 shared slice schema on long slices (12+ items), issues at high indexes", nthreads, func() *Shared {
 			s := z.Slice(z.String().Min(3)).Min(1)
 			return &Shared{Thread: func(i int, out *[]string, yield func()) {
